@@ -5,6 +5,7 @@ import PromProofs.HistIdxBoth2
 import PromProofs.HistSeries
 import PromProofs.HistChunkRT
 import PromProofs.HistBridge
+import PromProofs.HistMem
 /-
   C11 — Native histograms are stored and read back faithfully (layout level).
   Property theorems only; the model is PromModel/Tsdb/HistLayout.lean, lemmas are in
@@ -202,6 +203,82 @@ theorem caller_unchanged_partial (t : Int) (h : Hist) (r : AppRes)
   · by_cases hr' : h.hint = .reset
     · simp [hr'] at hr; subst hr; rfl
     · simp [hg, hr'] at hr; subst hr; rfl
+
+/-! ## caller_unchanged at memory level: aliasing -/
+
+/-- **caller_memory_frame.**  The caller's histograms are structs whose span, bucket and custom-bounds slices point
+    into arrays the caller owns (`Mem`), arbitrarily shared: the same slice in several histograms, prefixes of each
+    other, spare capacity that overlaps the cells of other histograms (`HView.inB` only asks for legal slice
+    headers).  For every heap, every chunk state, every appended struct `v` and EVERY outcome of
+    `AppendHistogram`/`AppendFloatHistogram` (append | recode forward | backward-recode the incoming histogram |
+    new chunk; `appendMem` is `appendHist` on such a struct): no existing cell of any array is written — each array
+    is a prefix of what it is afterwards —, therefore every other histogram struct `w` of the caller, whatever it
+    shares with `v`, denotes exactly the same histogram as before; the appended struct denotes what `appendHist`
+    hands back (through legal slices of the grown heap).  The judge evaluates this statement on the real memory
+    after every append of the alias cases (`mem=`, `held=`), for all four appender flavours. -/
+theorem caller_memory_frame (m : Mem) (prev : Option Chunk) (c : Chunk) (t : Int) (v : HView) (m' : Mem) (v' : HView)
+    (r : AppRes) (hv : v.inB m = true) (h : appendMem m prev c t v = .ok (m', v', r)) :
+    m.spans <+: m'.spans ∧ m.ints <+: m'.ints ∧ m.floats <+: m'.floats ∧
+    (∀ w : HView, w.inB m = true → m'.hist w = m.hist w) ∧
+    appendHist prev c t (m.hist v) = .ok r ∧ m'.hist v' = r.h ∧ v'.inB m' = true := by
+  obtain ⟨h0, ⟨x1, h1⟩, ⟨x2, h2⟩, ⟨x3, h3⟩, h4, h5, h6⟩ := appendMem_frame m prev c t v m' v' r hv h
+  exact ⟨⟨x1, h1.symm⟩, ⟨x2, h2.symm⟩, ⟨x3, h3.symm⟩, h4, h0, h5, h6⟩
+
+/-- **caller_unchanged with aliasing.**  In a chunk state that represents what was appended (`CInv`, the invariant
+    of `append_roundtrip`), appending the valid histogram that struct `v` denotes leaves every histogram struct of
+    the caller with its meaning: the appended one semantically (a staleness marker literally), all others
+    literally — also those sharing span or bucket memory with `v`. -/
+theorem caller_unchanged_aliased (m : Mem) (prev : Option Chunk) (c : Chunk) (l : List (Int × Hist)) (inv : CInv c l)
+    (t : Int) (v : HView) (hv : v.inB m = true) (hwf : WFs (m.hist v)) (hfl : v.float = c.float)
+    (hprev : c.rev ≠ [] → prev = none) (m' : Mem) (v' : HView) (r : AppRes)
+    (h : appendMem m prev c t v = .ok (m', v', r)) :
+    ((m.hist v).stale = true → m'.hist v' = m.hist v) ∧
+    ((m.hist v).stale = false → (m'.hist v').sem = (m.hist v).sem) ∧
+    (∀ w : HView, w.inB m = true → m'.hist w = m.hist w) := by
+  obtain ⟨h0, _, _, _, h4, h5, _⟩ := appendMem_frame m prev c t v m' v' r hv h
+  obtain ⟨a, b, _⟩ := appendHist_step prev c l inv t (m.hist v) hwf hfl r h0 hprev
+  rw [h5]
+  exact ⟨a, b, h4⟩
+
+/-- The hypotheses are met by the shared-layout situation: two histograms over ONE span slice `[⟨0,1⟩,⟨2,1⟩]`
+    (buckets 0 and 3), the chunk holds the wider layout {0,1,3,4} with 1 and 4 empty.  Appending the first one
+    backward-recodes it: its struct gets fresh spans/buckets behind the old cells, the second struct still reads
+    spans `[⟨0,1⟩,⟨2,1⟩]` and buckets `[3,0]`. -/
+example :
+    let m : Mem := ⟨[⟨0, 1⟩, ⟨2, 1⟩], [2, 0, 3, 0], []⟩
+    let v : HView := ⟨false, .unknown, 1, 0, 4, 0, 0, some ⟨0, 2, 2⟩, none, some ⟨0, 2, 2⟩, none, none⟩
+    let w : HView := ⟨false, .unknown, 1, 0, 6, 0, 0, some ⟨0, 2, 2⟩, none, some ⟨2, 2, 2⟩, none, none⟩
+    let c : Chunk := { float := false, hdr := .unknown, schema := 1, zt := 0, custom := [], pSpans := [⟨0, 2⟩, ⟨1, 2⟩],
+                       nSpans := [], rev := [⟨1000, 2, 0, 0, [1, -1, 1, -1], []⟩] }
+    v.inB m = true ∧ w.inB m = true ∧
+    ∃ m' v' r, appendMem m none c 2000 v = .ok (m', v', r) ∧ r.out = .same ∧
+      m'.spans = [⟨0, 1⟩, ⟨2, 1⟩, ⟨0, 2⟩, ⟨1, 2⟩] ∧ m'.ints = [2, 0, 3, 0, 2, -2, 2, -2] ∧
+      (m'.hist v').pSpans = [⟨0, 2⟩, ⟨1, 2⟩] ∧ (m'.hist w).pSpans = [⟨0, 1⟩, ⟨2, 1⟩] ∧ (m'.hist w).pB = [3, 0] := by
+  refine ⟨by decide, by decide, ?_⟩
+  have e : appendHist none
+      { float := false, hdr := .unknown, schema := 1, zt := 0, custom := [], pSpans := [⟨0, 2⟩, ⟨1, 2⟩],
+        nSpans := [], rev := [⟨1000, 2, 0, 0, [1, -1, 1, -1], []⟩] } 2000
+      (Mem.hist ⟨[⟨0, 1⟩, ⟨2, 1⟩], [2, 0, 3, 0], []⟩
+        ⟨false, .unknown, 1, 0, 4, 0, 0, some ⟨0, 2, 2⟩, none, some ⟨0, 2, 2⟩, none, none⟩) =
+      .ok ⟨.same, { float := false, hdr := .unknown, schema := 1, zt := 0, custom := [], pSpans := [⟨0, 2⟩, ⟨1, 2⟩],
+                    nSpans := [], rev := [⟨2000, 4, 0, 0, [2, -2, 2, -2], []⟩, ⟨1000, 2, 0, 0, [1, -1, 1, -1], []⟩] },
+            { float := false, hint := .unknown, schema := 1, zt := 0, count := 4, zcount := 0, sum := 0,
+              pSpans := [⟨0, 2⟩, ⟨1, 2⟩], nSpans := [], pB := [2, -2, 2, -2], nB := [], custom := [] }⟩ := by
+    have hi : Prom.Hist.insert true [2, 0] 4 [⟨1, 1, 1⟩, ⟨2, 1, 4⟩] = .ok [2, -2, 2, -2] := by rfl
+    simp [appendHist, Mem.hist, readO, Slice.read, Mem.vals, Chunk.num, Chunk.appendable, Chunk.last, Hist.stale,
+      staleBits, cLt, vGt, vZero, fEq, fIsNaN, fKey, customSchema, expandCounter, pairs, idxs, idxsFrom, runIdx, absVals,
+      prefixSums, prefixFrom, expandGo, CW.init, CW.finish, CW.advA, CW.advB, CW.addB, addInsert, recodeHistogram, hi,
+      countSpans, Chunk.appendRaw, bind, Except.bind, pure, Except.pure]
+  refine ⟨_, _, _, by rw [appendMem, e], rfl, ?_, ?_, ?_, ?_, ?_⟩ <;> rfl
+
+/-- The model never reports a written cell (what the harness observes on the real memory as `mem=-`): the
+    cell-by-cell comparison the suite prints is empty for every run of `appendMem`. -/
+theorem model_reports_no_write (m : Mem) (prev : Option Chunk) (c : Chunk) (t : Int) (v : HView) (m' : Mem)
+    (v' : HView) (r : AppRes) (hv : v.inB m = true) (h : appendMem m prev c t v = .ok (m', v', r)) :
+    cellDiff 0 m.spans m'.spans = [] ∧ cellDiff 0 m.ints m'.ints = [] ∧ cellDiff 0 m.floats m'.floats = [] := by
+  obtain ⟨_, ⟨x1, h1⟩, ⟨x2, h2⟩, ⟨x3, h3⟩, _⟩ := appendMem_frame m prev c t v m' v' r hv h
+  rw [h1, h2, h3]
+  exact ⟨cellDiff_append _ _ _, cellDiff_append _ _ _, cellDiff_append _ _ _⟩
 
 /-! ## stage 2: the bytes -/
 
